@@ -177,12 +177,15 @@ impl Kind for KD {
         V::D(s, n)
     }
 }
+/// timestamps: window of +-2^17 seconds around the epoch, arbitrary nanoseconds
+pub const T_WIN: i64 = 1 << 17;
 impl Kind for KT {
     const NAME: &'static str = "timestamp";
     fn sym() -> V {
         let s: i64 = any();
-        assume(DateTime::from_timestamp(s, 0).is_some());
-        V::T(s, 0)
+        let n: u32 = any();
+        assume(s > -T_WIN && s < T_WIN && n < 1_000_000_000);
+        V::T(s, n)
     }
 }
 impl Kind for KE {
